@@ -43,6 +43,7 @@
 #include "ola/rdm/SensorResponder.h"
 #include "ola/rdm/SubDeviceDispatcher.h"
 #include "ola/rdm/UID.h"
+#include "common/rdm/FakeNetworkManager.h"
 #undef private
 #undef protected
 
@@ -638,6 +639,31 @@ static string do_ackt(const vector<string> &a) {
   return "t=" + t + ";qc=" + vh::str(static_cast<int>(dev.QueuedMessageCount()));
 }
 
+// a scripted NetworkManagerInterface: host~domain~route_if~route_gw~dns+dns~iface+iface
+static ola::network::IPV4Address ip_of(unsigned long long v) {
+  return ola::network::IPV4Address(ola::network::HostToNetwork(static_cast<uint32_t>(v)));
+}
+static NetworkManagerInterface *make_net(const string &s) {
+  vector<string> f = vh::split(s, '~');
+  vector<ola::network::Interface> ifs;
+  if (f[5] != "-") {
+    vector<string> es = vh::split(f[5], '+');
+    for (size_t i = 0; i < es.size(); i++) {
+      vector<string> e = vh::split(es[i], '.');
+      vector<uint8_t> nm = vh::unhex(e[0]), hw = vh::unhex(e[3]);
+      hw.resize(6, 0);
+      ifs.push_back(ola::network::Interface(string(nm.begin(), nm.end()), ip_of(vh::num(e[1])), ip_of(0),
+                                            ip_of(vh::num(e[2])), ola::network::MACAddress(hw.data()), false,
+                                            static_cast<int32_t>(vh::num(e[4])), static_cast<uint16_t>(vh::num(e[5]))));
+    }
+  }
+  vector<ola::network::IPV4Address> dns;
+  if (f[4] != "-") { vector<string> ds = vh::split(f[4], '+'); for (size_t i = 0; i < ds.size(); i++) dns.push_back(ip_of(vh::num(ds[i]))); }
+  vector<uint8_t> host = vh::unhex(f[0]), dom = vh::unhex(f[1]);
+  return new FakeNetworkManager(ifs, static_cast<int32_t>(static_cast<uint32_t>(vh::num(f[2]))), ip_of(vh::num(f[3])),
+                                string(host.begin(), host.end()), string(dom.begin(), dom.end()), dns);
+}
+
 // ================= whole responders against their handler-by-handler models =================
 static string do_resp(const vector<string> &a) {
   const string &kind = a[1];
@@ -653,6 +679,29 @@ static string do_resp(const vector<string> &a) {
     make_test_sensors(init, &dev.m_sensors);
     t = outline_trace(&dev, a[8], 0);
     return "t=" + t + ";a=" + sensors_dyn_s(dev.m_sensors) + ";id=" + (dev.m_identify_mode ? "1" : "0");
+  }
+  if (kind == "dummy") {
+    vector<string> in = vh::split(a[7], '|');
+    g_fake_time = static_cast<time_t>(vh::num(vh::split(in[0], ',')[1]));
+    DummyResponder dev(uid);
+    for (size_t i = 0; i < dev.m_sensors.size(); i++) delete dev.m_sensors[i];
+    dev.m_sensors.clear();
+    vector<unsigned long long> init;
+    if (in[5] != "-") { vector<string> p = vh::split(in[5], ','); for (size_t i = 0; i < p.size(); i++) init.push_back(vh::num(p[i])); }
+    make_test_sensors(init, &dev.m_sensors);
+    dev.m_network_manager.reset(make_net(in[4]));
+    t = outline_trace(&dev, a[8], 0);
+    g_fake_time = 0;
+    std::ostringstream o;
+    o << dev.m_start_address << "," << static_cast<int>(dev.m_personality_manager.m_active_personality) << ","
+      << (dev.m_identify_mode ? 1 : 0) << "," << dev.m_lamp_strikes;
+    return "t=" + t + ";a=" + o.str() + ";s=" + sensors_dyn_s(dev.m_sensors);
+  }
+  if (kind == "network") {
+    NetworkResponder dev(uid);
+    dev.m_network_manager.reset(make_net(a[7]));
+    t = outline_trace(&dev, a[8], 0);
+    return "t=" + t + ";a=" + (dev.m_identify_mode ? "1" : "0");
   }
   if (kind == "moving") {
     vector<string> in = vh::split(a[7], ',');
